@@ -231,6 +231,63 @@ def _diff_paths(a, b, path=()):
     return out
 
 
+FULL_TREE = {
+    'main': {'preamble': 'main text', 'meta': {'m': {'deep': [1]}},
+             'preamble_indent': 2, 'preamble_encoding': 'utf-8',
+             'preamble_line_endings': 'unix',
+             'preamble_mimetype': 'text/plain', 'meta_encoding': 'utf-8',
+             'meta_format': 'json', 'encoding': 'utf-8'},
+    'changes': [
+        {'attrs': {'preamble': 'c0', 'meta': {'c': [0]}, 'encoding': 'utf-8',
+                   'preamble_indent': 1, 'preamble_encoding': 'latin-1',
+                   'preamble_line_endings': 'dos',
+                   'preamble_mimetype': 'text/markdown',
+                   'meta_encoding': 'utf-16', 'meta_format': 'json'},
+         'files': [{'meta': {'path': 'a'}, 'diff': b'@@ -1 +1 @@\n-a\n+b\n',
+                    'encoding': 'utf-8', 'meta_encoding': 'utf-8',
+                    'meta_format': 'json', 'diff_encoding': 'utf-8',
+                    'diff_line_endings': 'unix', 'diff_type': 'text'},
+                   {'meta': {'path': 'b'}, 'diff': b'x\n',
+                    'encoding': 'utf-8', 'meta_encoding': 'utf-8',
+                    'meta_format': 'json', 'diff_encoding': 'utf-8',
+                    'diff_line_endings': 'unix', 'diff_type': 'binary'}]},
+        {'attrs': {'encoding': 'latin-1', 'preamble': 'c1',
+                   'meta': {'k': 'v'}, 'preamble_indent': 0,
+                   'preamble_encoding': 'utf-8',
+                   'preamble_line_endings': 'unix',
+                   'preamble_mimetype': 'text/plain',
+                   'meta_encoding': 'utf-8', 'meta_format': 'json'},
+         'files': [{'meta': {'path': 'c'}, 'diff': b'y\n', 'encoding': 'utf-8',
+                    'meta_encoding': 'utf-8', 'meta_format': 'json',
+                    'diff_encoding': 'utf-8', 'diff_line_endings': 'dos',
+                    'diff_type': 'text'}]},
+    ],
+    'via_constructor': True,
+}
+
+
+def judge_self_assignment(owner, name):
+    diffx = trees.build(FULL_TREE)
+    target = target_of(diffx, owner)
+    attr = 'content' if name.startswith('content:') else name
+    before = trees.snapshot(diffx)
+
+    try:
+        setattr(target, attr, getattr(target, attr))
+    except Exception as e:
+        return ('self-assignment-raised',
+                '%s.%s = its own value raised %r' % (owner, attr, e))
+
+    after = trees.snapshot(diffx)
+
+    if not trees.snap_eq(before, after):
+        return ('self-assignment-changed-the-tree',
+                '%s.%s = its own value: %s' % (owner, attr,
+                                               trees.snap_diff(before, after)))
+
+    return None
+
+
 def judge_constructor(owner, name, value):
     diffx = trees.build(BASE_TREE)
     before = trees.snapshot(diffx)
@@ -331,6 +388,16 @@ def run_enum_chunk(owner, st):
                 st.violation(res[0], res[1],
                              {'owner': owner, 'name': name, 'value': value})
 
+    # assigning an attribute its own current value changes nothing
+    for name in OWNERS[owner]:
+        res = judge_self_assignment(owner, name)
+        evals += 1
+        nontrivial += 1
+
+        if res is not None:
+            st.violation(res[0], res[1],
+                         {'owner': owner, 'name': name, 'via': 'self'})
+
     if owner in ('change', 'file'):
         # the same values through add_change()/add_file() keywords: a
         # refused keyword must leave the tree without the new section
@@ -358,7 +425,9 @@ def run_enum_chunk(owner, st):
 
 
 def run_enum_case(case, st):
-    if case.get('via') == 'constructor':
+    if case.get('via') == 'self':
+        res = judge_self_assignment(case['owner'], case['name'])
+    elif case.get('via') == 'constructor':
         res = judge_constructor(case['owner'], case['name'], case['value'])
     elif 'kw' in case:
         res = judge_unknown_kw(case['owner'], case['kw'])
